@@ -107,6 +107,13 @@ Definition ds_reindex_axis (newk : kind) (news : list label) (r : axref) (fill :
   let! id := ds_axis_ref s r in
   let ax := hget (heap s) id in
   let d := aname ax in
+  if (alen ax =? 0) && negb (List.length news =? 0) then
+    (* empty axis: every variable that has it goes through DimArray.reindex_axis, a new Dataset is built from the results *)
+    let! vars := mapM_vars (fun a => match find_dim (dims a) d with
+                                     | Some i => reindex_empty newk news i fill fk raise_error a
+                                     | None => Ok a end) (ds_vars_arr s) in
+    ds_construct vars (dsattrs s)
+  else
   (* the dataset's own axis after reindexing (no variable may have it) *)
   let! idxs := (if raise_error then locate_many (alab ax) news else locate_many_raw false (alab ax) news) in
   let mask := map (fun p => negb (label_eqb (nth_lab (alab ax) (fst p)) (snd p))) (combine idxs news) in
